@@ -239,7 +239,7 @@ pub fn run(ctx: &Ctx) -> PropResult {
             }
         }
     }));
-    wls.push(Workload::cases("random_starts", ctx.n(100_000, 4_000_000), |rec, idx, rng| {
+    wls.push(Workload::cases("random_starts", ctx.count(100_000, 4_000_000), |rec, idx, rng| {
         let day = match rng.below(5) {
             0 => rng.range_i64(-3000, 3000),
             1 => rng.range_i64(cal::MIN_DAY, cal::MIN_DAY + 4000),
@@ -260,7 +260,7 @@ pub fn run(ctx: &Ctx) -> PropResult {
             judge_datetime(rec, inner, rng.range_i128(0, D - 1), gen_offset(rng), op, n);
         }
     }));
-    wls.push(Workload::cases("api_walks", ctx.n(30_000, 1_500_000), |rec, _, rng| super::walk::walk(rec, rng, "C05", super::walk::Family::Months)));
+    wls.push(Workload::cases("api_walks", ctx.count(30_000, 1_500_000), |rec, _, rng| super::walk::walk(rec, rng, "C05", super::walk::Family::Months)));
     let out = run_workloads(ctx, wls);
     let mut meta = PropMeta::default();
     meta.rule = format!(
